@@ -25,7 +25,8 @@ func (g *G) Expels(height base.Height, targets, signers []LocalNode) ([]base.Suf
 			}
 		}
 
-		end := start + base.Height(g.R.Intn(5))
+		start = g.bHeight(start)
+		end := g.bHeight(start + base.Height(g.R.Intn(5)))
 		fact := isaac.NewSuffrageExpelFact(targets[i].Addr, start, end, "reason-"+g.Str(1+g.R.Intn(12)))
 		op := isaac.NewSuffrageExpelOperation(fact)
 
